@@ -21,6 +21,12 @@ CLAIMS = {
         'note': 'Trusted: TLC, harness projection (2^-14 unit). Coincident consecutive samples on self-touching curves may merge; a single-sample result may be an error. The camber/series consumers are not driven here. Four defects found by this check were repaired (fix: commits, see known_findings.json).',
         'technique': TECH,
     },
+    'C12': {
+        'text': 'TLC enumerates every ordered list of up to 3 oriented faces over 5 vertices (and up to 4 faces over 4 vertices, which contains the closed tetrahedron) with no edge in more than two faces - vertex-only contacts, flipped faces, several components included - and on each: (MC) the transcription of the boundary walk satisfies the L1 partition of the boundary edges, and the L2 state machine of the patch flood fill, with the seed face drawn by an existential (= every hash iteration order), always terminates within its work bound in the L1 equivalence classes; every face list is then run in a memory- and time-limited child process through calc_edges/get_patches six times (fresh hash seeds) and TLC judges edge table, edge lengths, loops (each boundary edge exactly once as closed walks), patches (exact equivalence classes) and equality of all repetitions as sets. A second instance enumerates index-pair lists (<=3 pairs on 5 labels: exactly-once, contiguity, maximality in the simple case), all voxel subsets of a 3x2x2 block (26-connectivity classes, four hash orders) and box/cylinder sizes (manifold, consistently wound, outward normals). Seeded random triangulated grids with holes, missing and flipped triangles extend sizes.',
+        'design_ref': 'DESIGN.md section 6 C12',
+        'note': 'Trusted: TLC; hash orders of the real code are sampled (6 repetitions), the model covers all; non-termination is observed as exceeding a 3 s / 2 GB limit on inputs of <= 40 faces. Three defects found here were repaired (fix: commits); the L2 models transcribe the repaired algorithms.',
+        'technique': TECH + '; L2 algorithm transcriptions with hash order as existential quantification',
+    },
     'C18': {
         'text': 'TLC enumerates every lattice angle k*TAU/16 (|k|<=40/64, each +-1 ulp), every pair for directed angles, all pairs of lattice vectors in [-2,2]^2, every (start, extent) angular interval on Z_16 x -18..18 against 72 test angles, the full intersects table and all scalar intervals over {-inf,-2..2,+inf}; checks the arc/interval algebra laws on the spec; every case is executed by the real library and TLC judges each observation against the L1 set semantics (results free only within ANGLE_TOL of arc ends). Random finite angles up to 1e6 are judged through sin/cos agreement. This is the right level because the property is a finite case analysis around wrap points that the lattice hits exactly.',
         'design_ref': 'DESIGN.md section 6 C18',
